@@ -701,7 +701,18 @@ class GetStartingPaths(Contract):
             special = z3.Or(pyvc.truthy(c.st.fields['is_abs_pattern']), pyvc.truthy(U('method._is_parent', c.p['self'], c.p['curdir'])),
                             pyvc.truthy(U('method._is_this', c.p['self'], c.p['curdir'])))
             return special == z3.BoolVal(len(calls) == 0)
-        return [('Glob._get_starting_paths.no_scan_iff_absolute_or_dot_or_dotdot', ('C05', 'C12'), literal)]
+
+        def single_start(c):
+            # `.`, `..` and absolute starts ARE directories whatever the pattern's dir_only says (MARK and the trailing separator depend on it)
+            if len(c.st.ghost['$iter_calls']) != 0:
+                return z3.BoolVal(True)
+            r = c.ret
+            if r.kind != 'tuple' or len(r.a['items']) != 1 or r.a['items'][0].kind != 'tuple' or len(r.a['items'][0].a['items']) != 2:
+                return z3.BoolVal(False)
+            start, is_dir = r.a['items'][0].a['items']
+            return z3.And(pyvc.eq(start, c.p['curdir']), pyvc.truthy(is_dir))
+        return [('Glob._get_starting_paths.no_scan_iff_absolute_or_dot_or_dotdot', ('C05', 'C12'), literal),
+                ('Glob._get_starting_paths.unscanned_start_is_(curdir,is_dir=True)', ('C05', 'C12'), single_start)]
 
     obligation_props = {'Glob._get_starting_paths.scans': ('C12', 'C05'), 'Glob._get_starting_paths.loop': ('C05',)}
 
